@@ -60,7 +60,16 @@ where
                               // we loop here again
                         }
                         _ => {
-                            break;
+                            // not enough data for a msg with storage header. If no storage header
+                            // was detected yet and the data doesn't start with one, a (smaller) msg
+                            // with serial header might still fit, so try that below.
+                            if self.detected_storage_header
+                                || crate::dlt::is_storage_header_pattern(
+                                    self.reader.fill_buf().unwrap(),
+                                )
+                            {
+                                break;
+                            }
                         }
                     },
                 }
